@@ -500,6 +500,7 @@ func TestC05(t *testing.T) {
 	}, c05DecProp)
 
 	hx.Rapid(r, t, "api_sequences", r.N(1500, 20000), genC05API, c05APIProp(t, r))
+	hx.Rapid(r, t, "dial_retry_storm", r.N(60, 1500), genC05Storm, c05StormProp(t, r, "dial_retry_storm"))
 }
 
 func FuzzC05Decoders(f *testing.F) {
@@ -519,4 +520,101 @@ func FuzzC05Decoders(f *testing.F) {
 			t.Fatalf("key=%s %s", v.Dev.Key, v.Dev.Msg)
 		}
 	})
+}
+
+// ---- (d) dial retry storms: thousands of connect-retry expiries, refusals and
+// stalled dials per case (virtual time makes them free). Every expiry with a
+// pending dial result is a chance for a mishandled dial goroutine / channel to
+// crash the process; under the race detector (C10's race tier runs this too)
+// unsynchronised accesses between the FSM and its dial goroutines are reported.
+
+type c05Storm struct {
+	IdleMs  int      `json:"idle_ms"`
+	RetryMs int      `json:"retry_ms"`
+	Plans   []string `json:"plans"` // cycled: stall, refuse, tie (refused exactly at the retry expiry), late (just before it)
+	Secs    int      `json:"secs"`
+}
+
+func c05StormProp(t *testing.T, r *hx.Run, sub string) func(c c05Storm) hx.Verdict {
+	return func(c c05Storm) hx.Verdict {
+		r.SetCurrent(sub, c)
+		v := hx.Verdict{Class: fmt.Sprintf("plans=%d", len(c.Plans)), NT: fmt.Sprintf("%+v", c)}
+		a := world.PeerSpec{Remote: "10.0.0.2", LocalAS: 64512, RemoteAS: 64513, Hold: 90, IdleHoldMs: c.IdleMs, ConnRetryMs: c.RetryMs}
+		b := world.PeerSpec{Remote: "10.0.0.9", LocalAS: 64512, RemoteAS: 64999, Passive: true, Hold: 90}
+		var dev *hx.Dev
+		fail := func(key, f string, x ...any) {
+			if dev == nil {
+				dev = hx.Devf(key, f, x...)
+			}
+		}
+		o := world.Run(t, func() {
+			w, err := world.New("10.0.0.1", nil)
+			if err != nil {
+				fail("setup", "%v", err)
+				return
+			}
+			retry := time.Duration(c.RetryMs) * time.Millisecond
+			var plans []memnet.DialPlan
+			for i := 0; i < 64; i++ {
+				switch c.Plans[i%len(c.Plans)] {
+				case "stall":
+					plans = append(plans, memnet.DialPlan{Kind: memnet.Stall})
+				case "tie":
+					plans = append(plans, memnet.DialPlan{Kind: memnet.Refuse, Delay: retry})
+				case "late":
+					plans = append(plans, memnet.DialPlan{Kind: memnet.Refuse, Delay: retry - time.Nanosecond})
+				default:
+					plans = append(plans, memnet.DialPlan{Kind: memnet.Refuse})
+				}
+			}
+			w.Net.SetPlans(a.RemoteAddr(), plans...)
+			if err := w.AddPeer(a); err != nil {
+				fail("setup", "%v", err)
+				return
+			}
+			if err := w.AddPeer(b); err != nil {
+				fail("setup", "%v", err)
+				return
+			}
+			w.Serve()
+			w.Settle()
+			for s := 0; s < c.Secs; s++ {
+				w.Advance(time.Second)
+				if s%8 == 7 {
+					// keep the plan queue from running into its sticky tail too early
+					w.Net.SetPlans(a.RemoteAddr(), plans...)
+				}
+			}
+			if n := len(w.Net.Dials()); n < c.Secs*1000/(c.IdleMs+c.RetryMs+1)/4 {
+				fail("stopped-dialling", "only %d dial attempts in %d s (idle-hold %d ms, connect-retry %d ms)", n, c.Secs, c.IdleMs, c.RetryMs)
+			}
+			cb := w.Inbound(b.Remote, "10.0.0.1")
+			w.Settle()
+			for _, m := range handshakeBytes(b, cb, stEstablished, 90) {
+				cb.RemoteSend(m, nil)
+				w.Settle()
+			}
+			if w.Sessions(b.Remote) != 1 {
+				fail("other-peer-not-served", "after the retry storm the other peer cannot establish")
+			}
+			if ok, took := w.Call("Close", "", 5*time.Second, w.Srv.Close); !ok {
+				fail("close-blocked", "Server.Close did not return within %v after the retry storm", took)
+				return
+			}
+			w.Finish()
+		})
+		if bad := o.Bad(); bad != "" {
+			fail("wedge", "%s", bad)
+		}
+		v.Dev = dev
+		return v
+	}
+}
+
+func genC05Storm(rt *rapid.T) c05Storm {
+	c := c05Storm{IdleMs: pick(rt, "idle", 1, 5, 20, 50), RetryMs: pick(rt, "retry", 5, 10, 50), Secs: pick(rt, "secs", 20, 60, 120)}
+	for i, n := 0, rapid.IntRange(1, 5).Draw(rt, "nplans"); i < n; i++ {
+		c.Plans = append(c.Plans, pick(rt, "plan", "stall", "stall", "tie", "late", "refuse"))
+	}
+	return c
 }
